@@ -2,6 +2,7 @@ import GtModel.Model.Proto
 import GtModel.Model.Range
 import GtModel.Model.Edits
 import GtModel.Model.Cli
+import GtModel.Model.Formats
 open Lean GtModel
 
 namespace Driver
@@ -13,6 +14,7 @@ def table : List (String × Handler) := [
   ("range", rangeHandler),
   ("script", scriptHandler),
   ("cli", Cli.cliHandler),
+  ("formats", Formats.formatsHandler),
   ("errorpath", Cli.errorPathHandler),
   ("editmatrix", EditMatrix.editMatrixHandler),
   ("strscript", EditMatrix.strScriptHandler)
